@@ -19,30 +19,37 @@ import Proofs.Plenctag
 
   What is NOT covered by the model (left to the differential run): go/parser,
   go/format ("gofmt-formatted, still compiles" — the tool only replaces
-  `ast.BasicLit` tag values with a back-quoted literal and prints with
-  go/format), double-quoted tag literals, and tag values outside printable
-  ASCII + `\"` + `\\` (the model answers `unsupported` there).
+  `ast.BasicLit` tag values by `appendTag`'s result and prints with go/format), double-quoted tag literals, and tag values with a backslash escape
+  other than `\"` and `\\` (the model answers `unsupported` there).
 
-  Findings visible in the statements below (all confirmed on the real tool):
-  * F1 (`existing_kept`): a value written `name,` (one trailing comma, e.g.
-    `json:"a,"` or `json:","`) is printed back without the comma
-    (`json:"a"`, `json:""`): `Tag.Value` drops a lone empty option.  Hence the
-    "kept as it was" statement is up to `Tag.norm`; `norm` is the identity on
-    every tag whose options are not exactly `[""]`.
-  * F2 (`new_indexes_fresh`): `maxPlenc++` is 64-bit arithmetic; with an
-    existing `plenc:"9223372036854775807"` the new indexes are negative
-    (`-9223372036854775808`, …).  Hence the hypothesis `hov`.
-  * F3 (`build_accepts_rewritten`): the tool does not know the builder's upper
-    bound 2^29-1; with an existing index 536870911 the next field gets 536870912,
-    which the builder rejects.  Hence the hypothesis `hmax`.
+  History: an earlier version of the tool printed every tag back through
+  structtag (`Tags.String`) and incremented `maxPlenc` without a bound.  The
+  model of that version exposed four defects, all confirmed on the binary and
+  since repaired in main.go (`appendTag`, the `maxFieldIndex` test):
+  * F1: a value written `name,` (`json:"a,"`, `json:","`) lost its comma, a
+    literal tab became `\t`: now the old tag text is kept byte for byte
+    (`existing_kept`, `setTag_text`).
+  * F2: with an existing `plenc:"9223372036854775807"` the new indexes wrapped to
+    negative numbers; F3: with an existing index 2^29-1 the tool handed out
+    2^29, which the builder rejects: now `Err.noIndexLeft` (examples below), and
+    `new_indexes_fresh` / `build_accepts_rewritten` need no size hypothesis.
   * F4 (outside the model): a double-quoted tag literal containing a back quote
-    (`"json:\"i`x\""`) is rewritten into a back-quoted literal that contains the
-    back quote: the written file no longer parses.
+    was turned into a back-quoted literal containing it: `appendTag` now keeps
+    such a literal double-quoted.
 -/
 namespace C20
 open Plenctag
 
 variable {fl : Flags} {fs fs' : List Field}
+
+/-- a successful run: nothing recorded in either loop, and field by field one of
+the three `Step`s. -/
+theorem ok_steps (h : rewriteStruct fl fs = .ok fs') :
+    (∀ f ∈ fs, status1 f = .fine) ∧ Fine2 fl (maxPlenc fs) fs ∧
+    fs' = pass2 fl (maxPlenc fs) fs ∧ Pointwise (Step fl (maxPlenc fs)) fs fs' := by
+  obtain ⟨hfine, rfl⟩ := rewriteStruct_ok.mp h
+  obtain ⟨h1, h2⟩ := structStatus_fine.mp hfine
+  exact ⟨h1, h2, rfl, pass2_step fl fs _ (maxPlenc_nonneg fs) h2⟩
 
 /-! ### nothing but tags changes -/
 
@@ -51,37 +58,35 @@ theorem only_tags_change (h : rewriteStruct fl fs = .ok fs') :
     fs'.length = fs.length ∧
     fs'.map (fun f => (f.names, f.embeddedName)) = fs.map (fun f => (f.names, f.embeddedName)) ∧
     Pointwise (fun f f' => f'.names = f.names ∧ f'.embeddedName = f.embeddedName) fs fs' := by
-  obtain ⟨_, rfl⟩ := rewriteStruct_ok.mp h
-  have hs := pass2_step fl fs (maxPlenc fs) (maxPlenc_inRange fs)
-  have hp : Pointwise (fun f f' => f'.names = f.names ∧ f'.embeddedName = f.embeddedName) fs
-      (pass2 fl (maxPlenc fs) fs) := by
+  obtain ⟨_, _, _, hs⟩ := ok_steps h
+  have hp : Pointwise (fun f f' => f'.names = f.names ∧ f'.embeddedName = f.embeddedName) fs fs' := by
     refine Pointwise.imp ?_ hs
     intro f f' st
     cases st with
     | same _ e => subst e; exact ⟨rfl, rfl⟩
     | dash tags _ e => subst e; exact ⟨rfl, rfl⟩
-    | num tags v _ e _ => subst e; exact ⟨rfl, rfl⟩
+    | num tags v _ e _ _ _ => subst e; exact ⟨rfl, rfl⟩
   refine ⟨hp.length.symm, ?_, hp⟩
   exact (Pointwise.map_eq (fun a b hab => by rw [hab.1, hab.2]) hp).symm
 
 /-! ### existing tags are kept -/
 
 /-- How a field and its rewritten version are related: unchanged, or its tag
-set `tags` (which had no plenc key) was printed back with one plenc tag appended
-at the end; re-reading the new literal gives exactly `tags` in the same order
-(each tag up to `Tag.norm`, see F1) followed by the plenc tag. -/
+literal was extended by `appendTag` with one plenc tag `plenc:"n"`; the old tag
+set `tags` had no plenc key, and re-reading the new literal gives exactly `tags`,
+in the same order and with the same names and options, followed by the plenc
+tag.  What the new text is, byte for byte, is `new_text` below. -/
 def Kept (f f' : Field) : Prop :=
   f' = f ∨
   ∃ tags n, extractTags f.rawTag = .ok tags ∧ Tags.get tags "plenc" = none ∧
-    f'.rawTag = some (Tags.render (tags ++ [plencTag n])) ∧
-    extractTags f'.rawTag = .ok (tags.map Tag.norm ++ [plencTag n])
+    f' = setTag f n ∧
+    extractTags f'.rawTag = .ok (tags ++ [plencTag n])
 
 theorem existing_kept (h : rewriteStruct fl fs = .ok fs') :
     Pointwise Kept fs fs' ∧
     -- a field that already had a plenc key keeps its tag literal byte for byte
     Pointwise (fun f f' => hasPlenc f = true → f' = f) fs fs' := by
-  obtain ⟨_, rfl⟩ := rewriteStruct_ok.mp h
-  have hs := pass2_step fl fs (maxPlenc fs) (maxPlenc_inRange fs)
+  obtain ⟨_, _, _, hs⟩ := ok_steps h
   constructor
   · refine Pointwise.imp ?_ hs
     intro f f' st
@@ -90,13 +95,11 @@ theorem existing_kept (h : rewriteStruct fl fs = .ok fs') :
     | dash tags hc e =>
       subst e
       obtain ⟨_, hts, hg, _, _⟩ := classify_add hc
-      have := extractTags_setTag (f := f) (extractTags_wf hts) wf_plencTag_dash hg
-      exact Or.inr ⟨tags, "-", hts, hg, this.1, this.2⟩
-    | num tags v hc e _ =>
+      exact Or.inr ⟨tags, "-", hts, hg, rfl, extractTags_setTag hts wf_plencTag_dash⟩
+    | num tags v hc e _ _ _ =>
       subst e
       obtain ⟨_, hts, hg, _, _⟩ := classify_add hc
-      have := extractTags_setTag (f := f) (extractTags_wf hts) (wf_plencTag_itoa v) hg
-      exact Or.inr ⟨tags, itoa v, hts, hg, this.1, this.2⟩
+      exact Or.inr ⟨tags, itoa v, hts, hg, rfl, extractTags_setTag hts (wf_plencTag_itoa v)⟩
   · refine Pointwise.imp ?_ hs
     intro f f' st hp
     cases st with
@@ -104,59 +107,55 @@ theorem existing_kept (h : rewriteStruct fl fs = .ok fs') :
     | dash tags hc e =>
       obtain ⟨_, hts, hg, _, _⟩ := classify_add hc
       unfold hasPlenc at hp; rw [hts] at hp; simp [hg] at hp
-    | num tags v hc e _ =>
+    | num tags v hc e _ _ _ =>
       obtain ⟨_, hts, hg, _, _⟩ := classify_add hc
       unfold hasPlenc at hp; rw [hts] at hp; simp [hg] at hp
 
-/-- `Tag.norm` changes nothing but a lone empty option (`name,` → `name`): key
-and name always survive, and so do the options unless they are exactly `[""]`. -/
-theorem norm_spec (t : Tag) :
-    t.norm.key = t.key ∧ t.norm.name = t.name ∧ (t.options ≠ [""] → t.norm = t) ∧
-    (t.options = [""] → t.norm.options = []) := by
-  refine ⟨Tag.norm_key t, Tag.norm_name t, ?_, ?_⟩
-  · intro h; unfold Tag.norm; simp [h]
-  · intro h; unfold Tag.norm; simp [h]
+/-- The text of an extended literal: names untouched; the new literal is
+`plenc:"n"` alone when there was no literal or a blank one, otherwise the old
+text minus its trailing spaces, one space, `plenc:"n"` — the old text is a
+prefix up to trailing spaces. -/
+theorem new_text (f : Field) (n : String) :
+    (setTag f n).names = f.names ∧ (setTag f n).embeddedName = f.embeddedName ∧
+    ∃ new, (setTag f n).rawTag = some new ∧
+      (((f.rawTag = none ∨
+          ∃ old, f.rawTag = some old ∧ (trimRightSpaces old.toList).all goIsSpace = true) ∧
+          new = Tags.render [plencTag n]) ∨
+       (∃ old sp, f.rawTag = some old ∧ old.toList = trimRightSpaces old.toList ++ sp ∧ AllSpace sp ∧
+          new.toList = trimRightSpaces old.toList ++ ' ' :: (Tags.render [plencTag n]).toList)) :=
+  setTag_text f n
+
+/-- `plenc:"n"` is printed as key, colon, quoted name. -/
+theorem plenc_text (n : String) :
+    (Tags.render [plencTag n]).toList =
+      "plenc".toList ++ ':' :: '"' :: (quoteChars n.toList ++ ['"']) := render_plencTag n
 
 /-- Looking up any other key in the new tag gives the tag that was there before
-(first occurrence, as `Tags.Get` and `reflect` do). -/
-theorem existing_kept_lookup {f f' : Field} {tags : Tags} {n : String} {k : String}
-    (_ : extractTags f.rawTag = .ok tags)
-    (h' : extractTags f'.rawTag = .ok (tags.map Tag.norm ++ [plencTag n])) (hk : k ≠ "plenc") :
-    ∃ tags', extractTags f'.rawTag = .ok tags' ∧
-      Tags.get tags' k = (Tags.get tags k).map Tag.norm := by
-  refine ⟨_, h', ?_⟩
-  rw [Tags.get_append_single, Tags.get_map_norm]
+(first occurrence, as `Tags.Get` and `reflect` do), unchanged. -/
+theorem existing_kept_lookup {tags : Tags} {n : String} {k : String} (hk : k ≠ "plenc") :
+    Tags.get (tags ++ [plencTag n]) k = Tags.get tags k := by
+  rw [Tags.get_append_single]
   have : ¬ (plencTag n).key = k := fun e => hk e.symm
   simp [this]
 
-/-- With no trailing-comma value among them the re-read tags are literally the old ones. -/
-theorem existing_kept_exact {tags : Tags} (h : ∀ t ∈ tags, t.options ≠ [""]) :
-    tags.map Tag.norm = tags := by
-  induction tags with
-  | nil => rfl
-  | cons t r ih =>
-    simp only [List.map_cons]
-    rw [(norm_spec t).2.2.1 (h t (by simp)), ih (fun x hx => h x (by simp [hx]))]
-
 /-! ### new indexes -/
 
-/-- With no 64-bit overflow (F2): every index that existed is at most `maxPlenc`,
-and the indexes handed out are `maxPlenc+1, maxPlenc+2, …` in field order. -/
-theorem new_indexes_fresh (h : rewriteStruct fl fs = .ok fs')
-    (hov : maxPlenc fs + fs.length < 2 ^ 63) :
+/-- Every index that existed is at most `maxPlenc`, and the indexes handed out
+are `maxPlenc+1, maxPlenc+2, …` in field order (all at most `maxFieldIndex`,
+see `new_indexes_in_range`). -/
+theorem new_indexes_fresh (h : rewriteStruct fl fs = .ok fs') :
     (∀ f ∈ fs, ∀ w, plencIndex f = some w → w ≤ maxPlenc fs) ∧
     ∃ k, k ≤ fs.length ∧ assigned fs fs' = countUp (maxPlenc fs) k := by
-  obtain ⟨hfine, rfl⟩ := rewriteStruct_ok.mp h
+  obtain ⟨_, h2, rfl, _⟩ := ok_steps h
   refine ⟨fun f hf w hw => le_maxPlenc hf hw, ?_⟩
-  exact pass2_assigned fl fs (structStatus_fine.mp hfine).2 _ (maxPlenc_inRange fs) hov
+  exact pass2_assigned fl fs _ (maxPlenc_nonneg fs) h2
 
 /-- … hence each new index is greater than every existing one, and the new ones
 are pairwise different. -/
-theorem new_indexes_gt_and_distinct (h : rewriteStruct fl fs = .ok fs')
-    (hov : maxPlenc fs + fs.length < 2 ^ 63) :
+theorem new_indexes_gt_and_distinct (h : rewriteStruct fl fs = .ok fs') :
     (∀ v ∈ assigned fs fs', ∀ f ∈ fs, ∀ w, plencIndex f = some w → w < v) ∧
     (assigned fs fs').Pairwise (· ≠ ·) := by
-  obtain ⟨h1, k, _, hk⟩ := new_indexes_fresh h hov
+  obtain ⟨h1, k, _, hk⟩ := new_indexes_fresh h
   rw [hk]
   constructor
   · intro v hv f hf w hw
@@ -168,39 +167,56 @@ theorem new_indexes_gt_and_distinct (h : rewriteStruct fl fs = .ok fs')
 /-- … and if the existing indexes were pairwise different, so are all indexes of
 the rewritten struct. -/
 theorem all_indexes_distinct (h : rewriteStruct fl fs = .ok fs')
-    (hov : maxPlenc fs + fs.length < 2 ^ 63) (hpre : (idxs fs).Pairwise (· ≠ ·)) :
-    (idxs fs').Pairwise (· ≠ ·) := by
-  obtain ⟨hfine, rfl⟩ := rewriteStruct_ok.mp h
-  exact (pass2_idxs_distinct fl fs (structStatus_fine.mp hfine).2 _ (maxPlenc_inRange fs) hov
+    (hpre : (idxs fs).Pairwise (· ≠ ·)) : (idxs fs').Pairwise (· ≠ ·) := by
+  obtain ⟨_, h2, rfl, _⟩ := ok_steps h
+  exact (pass2_idxs_distinct fl fs _ (maxPlenc_nonneg fs) h2
     (fun f hf w hw => le_maxPlenc hf hw) hpre).1
 
-/-- F2: without the hypothesis the statement is false. -/
+/-- every number the tool writes is in `1 … maxFieldIndex` (= 2^29-1). -/
+theorem new_indexes_in_range (h : rewriteStruct fl fs = .ok fs') :
+    Pointwise (fun f f' => f' = f ∨ f' = setTag f "-" ∨
+      ∃ v, f' = setTag f (itoa v) ∧ maxPlenc fs < v ∧ v ≤ maxFieldIndex) fs fs' := by
+  obtain ⟨_, _, _, hs⟩ := ok_steps h
+  refine Pointwise.imp ?_ hs
+  intro f f' st
+  cases st with
+  | same _ e => exact Or.inl e
+  | dash tags _ e => exact Or.inr (Or.inl e)
+  | num tags v _ e _ hlo hhi => exact Or.inr (Or.inr ⟨v, e, hlo, hhi⟩)
+
+/-- former F2 and F3: no index is left — an error, nothing is written. -/
 example :
-    rewriteStruct { json := false, sql := true, priv := true }
+    rewriteStructX { json := false, sql := true, priv := true }
       [⟨["A"], "", some "plenc:\"9223372036854775807\""⟩, ⟨["B"], "", none⟩] =
-    .ok [⟨["A"], "", some "plenc:\"9223372036854775807\""⟩,
-         ⟨["B"], "", some "plenc:\"-9223372036854775808\""⟩] := by decide +kernel
+    .err .noIndexLeft := by decide +kernel
+example :
+    rewriteStructX { json := false, sql := true, priv := true }
+      [⟨["A"], "", some "plenc:\"536870911\""⟩, ⟨["B"], "", none⟩] =
+    .err .noIndexLeft := by decide +kernel
+example :
+    rewriteStructX { json := false, sql := true, priv := true }
+      [⟨["A"], "", some "plenc:\"536870910\""⟩, ⟨["B"], "", none⟩] =
+    .ok [⟨["A"], "", some "plenc:\"536870910\""⟩, ⟨["B"], "", some "plenc:\"536870911\""⟩] := by
+  decide +kernel
 
 /-! ### exclusions and unexported fields -/
 
 /-- An eligible field — not skipped as private, one name or embedded, readable
 tag without plenc key — that carries `sql:"-"` under `-sql`, or `json:"-"` under
-`-json`, gets `plenc:"-"`; every other eligible field gets a number. -/
+`-json`, gets `plenc:"-"` appended; every other eligible field gets a number
+(or the run fails with `noIndexLeft`). -/
 theorem excluded_get_dash (h : rewriteStruct fl fs = .ok fs') :
     Pointwise (fun f f' =>
       ∀ name tags, Plenctag.fieldName f = .ok name → (fl.priv && lowerFirst fl name) = false →
         f.names.length ≤ 1 → extractTags f.rawTag = .ok tags → Tags.get tags "plenc" = none →
         ((fl.sql = true ∧ ∃ t, Tags.get tags "sql" = some t ∧ t.name = "-") ∨
          (fl.json = true ∧ ∃ t, Tags.get tags "json" = some t ∧ t.name = "-") →
-           f'.rawTag = some (Tags.render (tags ++ [plencTag "-"]))) ∧
-        (isExcluded fl tags = false →
-           ∃ v, f'.rawTag = some (Tags.render (tags ++ [plencTag (itoa v)])))) fs fs' := by
-  obtain ⟨_, rfl⟩ := rewriteStruct_ok.mp h
-  have hs := pass2_step fl fs (maxPlenc fs) (maxPlenc_inRange fs)
+           f' = setTag f "-") ∧
+        (isExcluded fl tags = false → ∃ v, f' = setTag f (itoa v))) fs fs' := by
+  obtain ⟨_, _, _, hs⟩ := ok_steps h
   refine Pointwise.imp ?_ hs
   intro f f' st name tags hn hp hl hts hg
   have hc := classify_eligible hn hp hl hts hg
-  have hw := extractTags_wf hts
   constructor
   · intro hex
     have hx : isExcluded fl tags = true := by
@@ -211,33 +227,28 @@ theorem excluded_get_dash (h : rewriteStruct fl fs = .ok fs') :
     rw [hx] at hc
     cases st with
     | same hno _ => exact absurd hc (hno _ _)
-    | dash tags' hc' e =>
-      rw [hc] at hc'; injection hc' with e1 _; subst e1; subst e
-      exact (extractTags_setTag hw wf_plencTag_dash hg).1
-    | num tags' v hc' e _ => rw [hc] at hc'; injection hc' with _ e2; simp at e2
+    | dash tags' hc' e => exact e
+    | num tags' v hc' e _ _ _ => rw [hc] at hc'; injection hc' with _ e2; simp at e2
   · intro hx
     rw [hx] at hc
     cases st with
     | same hno _ => exact absurd hc (hno _ _)
     | dash tags' hc' e => rw [hc] at hc'; injection hc' with _ e2; simp at e2
-    | num tags' v hc' e _ =>
-      rw [hc] at hc'; injection hc' with e1 _; subst e1; subst e
-      exact ⟨v, (extractTags_setTag hw (wf_plencTag_itoa v) hg).1⟩
+    | num tags' v hc' e _ _ _ => exact ⟨v, e⟩
 
 /-- With `-private` (the default) a field whose name — the first declared name,
 or the embedded type's name — starts with a lower-case rune is returned as it is. -/
 theorem unexported_untouched (h : rewriteStruct fl fs = .ok fs') (hpriv : fl.priv = true) :
     Pointwise (fun f f' =>
       (∃ name, Plenctag.fieldName f = .ok name ∧ lowerFirst fl name = true) → f' = f) fs fs' := by
-  obtain ⟨_, rfl⟩ := rewriteStruct_ok.mp h
-  have hs := pass2_step fl fs (maxPlenc fs) (maxPlenc_inRange fs)
+  obtain ⟨_, _, _, hs⟩ := ok_steps h
   refine Pointwise.imp ?_ hs
   intro f f' st ⟨name, hn, hlow⟩
   have hc := classify_private hn hpriv hlow
   cases st with
   | same _ e => exact e
   | dash tags hc' _ => rw [hc] at hc'; simp at hc'
-  | num tags v hc' _ _ => rw [hc] at hc'; simp at hc'
+  | num tags v hc' _ _ _ _ => rw [hc] at hc'; simp at hc'
 
 /-- what `fieldName` is: the embedded name, the single name, and for `X, Y T`
 the rune tested is the first rune of `X`. -/
@@ -257,17 +268,16 @@ theorem lowerFirst_ascii (c : Char) (r : List Char) (hc : c.toNat < 128) :
 /-! ### a second run changes nothing -/
 
 theorem idempotent (h : rewriteStruct fl fs = .ok fs') : rewriteStruct fl fs' = .ok fs' := by
-  obtain ⟨hfine, rfl⟩ := rewriteStruct_ok.mp h
-  obtain ⟨h1, h2⟩ := structStatus_fine.mp hfine
-  have hs := pass2_step fl fs (maxPlenc fs) (maxPlenc_inRange fs)
-  have hnext : ∀ f' ∈ pass2 fl (maxPlenc fs) fs, classify fl f' = .skip ∧ status1 f' = .fine := by
+  obtain ⟨h1, h2, _, hs⟩ := ok_steps h
+  have hcl := fine2_classify fs _ h2
+  have hnext : ∀ f' ∈ fs', classify fl f' = .skip ∧ status1 f' = .fine := by
     intro f' hf'
     obtain ⟨f, hf, st⟩ := hs.exists_left f' hf'
-    exact step_next st (h1 f hf) (h2 f hf)
+    exact step_next st (h1 f hf) (hcl f hf)
   apply rewriteStruct_ok.mpr
   constructor
   · apply structStatus_fine.mpr
-    exact ⟨fun f' hf' => (hnext f' hf').2, fun f' hf' => by rw [(hnext f' hf').1]; rfl⟩
+    exact ⟨fun f' hf' => (hnext f' hf').2, fine2_all_skip _ (fun f' hf' => (hnext f' hf').1) _⟩
   · exact (pass2_all_skip fl _ (fun f' hf' => (hnext f' hf').1) _).symm
 
 /-! ### errors, never crashes -/
@@ -432,12 +442,12 @@ def UserTagsOK (fs : List Field) : Prop :=
     (t.name = "-" → t.options = []) ∧ (∀ v, atoi t.name = some v → 0 ≤ v ∧ v ≤ 536870911)
 
 /-- the plenc tag of a rewritten, non-private, single-name field -/
-theorem field_tag_after {lo hi : Int} {f f' : Field} (st : StepB fl lo hi f f')
+theorem field_tag_after {lo : Int} {f f' : Field} (st : Step fl lo f f')
     (h1 : status1 f = .fine) (h2 : (classify fl f).status = .fine)
     (hnp : ∀ name, Plenctag.fieldName f = .ok name → (fl.priv && lowerFirst fl name) = false)
     (hu : ∀ ts t, extractTags f.rawTag = .ok ts → Tags.get ts "plenc" = some t →
       (t.name = "-" → t.options = []) ∧ (∀ v, atoi t.name = some v → 0 ≤ v ∧ v ≤ 536870911))
-    (hlo : 0 ≤ lo) (hhi : hi ≤ 536870911) :
+    (hlo : 0 ≤ lo) :
     ∃ t, ptagOf f' = t.rawValue ∧ WFTag t ∧
       plencIndex f' = (if t.name = "-" then none else atoi t.name) ∧
       ((t.name = "-" ∧ t.options = []) ∨
@@ -493,17 +503,17 @@ theorem field_tag_after {lo hi : Int} {f f' : Field} (st : StepB fl lo hi f f')
   | dash tags hc e =>
     subst e
     obtain ⟨_, hts, hg, _, _⟩ := classify_add hc
-    have hx := (extractTags_setTag (f := f) (extractTags_wf hts) wf_plencTag_dash hg).2
+    have hx := extractTags_setTag hts wf_plencTag_dash
     obtain ⟨k1, k2⟩ := key _ _ _ hx (get_plenc_after hg)
     exact ⟨plencTag "-", k1, wf_plencTag_dash, k2, Or.inl ⟨rfl, rfl⟩⟩
   | num tags v hc e hv hlov hhiv =>
     subst e
     obtain ⟨_, hts, hg, _, _⟩ := classify_add hc
-    have hx := (extractTags_setTag (f := f) (extractTags_wf hts) (wf_plencTag_itoa v) hg).2
+    have hx := extractTags_setTag hts (wf_plencTag_itoa v)
     obtain ⟨k1, k2⟩ := key _ _ _ hx (get_plenc_after hg)
     refine ⟨plencTag (itoa v), k1, wf_plencTag_itoa v, k2, Or.inr ⟨itoa_ne_dash v, v, atoi_itoa hv, ?_, ?_⟩⟩
     · omega
-    · omega
+    · exact hhiv
 
 theorem tagAccepted_of_tag {t : Tag} (hw : WFTag t)
     (h : (t.name = "-" ∧ t.options = []) ∨
@@ -537,14 +547,11 @@ theorem build_accepts_rewritten_tags (exported : Field → Bool) (ty : Field →
     (hexp : ∀ f' ∈ fs', exported f' = true →
       ∀ name, Plenctag.fieldName f' = .ok name → (fl.priv && lowerFirst fl name) = false)
     (huser : UserTagsOK fs)
-    (hpre : (idxs fs).Pairwise (· ≠ ·))
-    (hmax : maxPlenc fs + fs.length ≤ 536870911) :
+    (hpre : (idxs fs).Pairwise (· ≠ ·)) :
     (∀ d ∈ fs'.map (toDef exported ty), d.2.1 = true → TagAccepted d.2.2.1) ∧
     (defIdxs (fs'.map (toDef exported ty))).Pairwise (· ≠ ·) := by
-  obtain ⟨hfine, rfl⟩ := rewriteStruct_ok.mp h
-  obtain ⟨h1, h2⟩ := structStatus_fine.mp hfine
-  have hov : maxPlenc fs + (fs.length : Int) < 2 ^ 63 := by omega
-  have hs := pass2_stepB fl fs (maxPlenc fs) (maxPlenc_inRange fs) hov
+  obtain ⟨h1, hf2, rfl, hs⟩ := ok_steps h
+  have h2 := fine2_classify fs _ hf2
   -- per field
   have hfield : ∀ f' ∈ pass2 fl (maxPlenc fs) fs, exported f' = true →
       ∃ t, ptagOf f' = t.rawValue ∧ WFTag t ∧
@@ -561,7 +568,7 @@ theorem build_accepts_rewritten_tags (exported : Field → Bool) (ty : Field →
         | num tags v _ e _ _ _ => subst e; exact ⟨rfl, rfl⟩
       unfold Plenctag.fieldName; rw [this.1, this.2]
     exact field_tag_after st (h1 f hf) (h2 f hf)
-      (fun name hn => hexp f' hf' he name (hnm ▸ hn)) (huser f hf) (maxPlenc_nonneg fs) hmax
+      (fun name hn => hexp f' hf' he name (hnm ▸ hn)) (huser f hf) (maxPlenc_nonneg fs)
   constructor
   · intro d hd he
     simp only [List.mem_map] at hd
@@ -571,7 +578,7 @@ theorem build_accepts_rewritten_tags (exported : Field → Bool) (ty : Field →
     rw [hp]
     exact (tagAccepted_of_tag hw hcase).1
   · -- the builder's indexes are the plenc indexes of the exported fields
-    have hdist := (pass2_idxs_distinct fl fs h2 _ (maxPlenc_inRange fs) hov
+    have hdist := (pass2_idxs_distinct fl fs _ (maxPlenc_nonneg fs) hf2
       (fun f hf w hw => le_maxPlenc hf hw) hpre).1
     have hlist : ∀ (l : List Field), defIdxs (l.map (toDef exported ty)) =
         l.filterMap (fun f => if exported f then idxOf (ptagOf f) else none) := by
@@ -654,8 +661,7 @@ theorem buildFields_of_accepted (cfg : Cfg) : ∀ (defs : FieldDefs),
             simp only [List.map_cons, defIdxs, ↓reduceIte, idxOf, hd, hsc, hidxv, Option.map_some, hidx]
 
 /-- C20's builder clause: for a rewritten struct without multi-name declarations
-whose own tags are sane (`UserTagsOK`, `hpre`), with room below 2^29 (`hmax`, F3)
-and field types that have codecs, `buildFields` returns fields — none of "no
+whose own tags are sane (`UserTagsOK`, `hpre`) and whose field types have codecs, `buildFields` returns fields — none of "no
 plenc tag", "could not parse plenc tag", "negative plenc index", "index too
 large" — and the duplicate-index check of `build` (`hasDup`) passes. -/
 theorem build_accepts_rewritten (cfg : Cfg) (exported : Field → Bool) (ty : Field → TyDef)
@@ -665,12 +671,11 @@ theorem build_accepts_rewritten (cfg : Cfg) (exported : Field → Bool) (ty : Fi
       ∀ name, Plenctag.fieldName f' = .ok name → (fl.priv && lowerFirst fl name) = false)
     (huser : UserTagsOK fs)
     (hpre : (idxs fs).Pairwise (· ≠ ·))
-    (hmax : maxPlenc fs + fs.length ≤ 536870911)
     (htypes : ∀ d ∈ fs'.map (toDef exported ty), d.2.1 = true → d.2.2.1 ≠ "-" →
       ∃ c, build cfg d.2.2.2.2 (subTagOf d.2.2.1) = .ok c) :
     ∃ cfs, buildFields cfg (fs'.map (toDef exported ty)) = .ok cfs ∧
       hasDup (cfs.map (·.1)) = false := by
-  obtain ⟨hacc, hdist⟩ := build_accepts_rewritten_tags exported ty h hsingle hexp huser hpre hmax
+  obtain ⟨hacc, hdist⟩ := build_accepts_rewritten_tags exported ty h hsingle hexp huser hpre
   obtain ⟨cfs, hb, hi⟩ := buildFields_of_accepted cfg _ hacc htypes
   exact ⟨cfs, hb, by rw [hi]; exact hasDup_false hdist⟩
 
@@ -704,7 +709,7 @@ example :
        ⟨["B"], "", some "plenc:\"7\""⟩,
        ⟨[], "Base", some "plenc:\"9\""⟩,
        ⟨["G"], "", some "json:\"-\" plenc:\"-\""⟩,
-       ⟨["H"], "", some "sql:\"-\" json:\"h\" plenc:\"-\""⟩,
+       ⟨["H"], "", some "sql:\"-\"   json:\"h\" plenc:\"-\""⟩,
        ⟨["hidden"], "", none⟩,
        ⟨["C"], "", some "plenc:\"10\""⟩] := by
   decide +kernel
@@ -737,11 +742,15 @@ example : rewriteStructX dflt [⟨["A"], "", some "json"⟩] = .err .tagSyntax :
 example : rewriteStructX dflt [⟨["A"], "", some ":\"a\""⟩] = .err .tagKeySyntax := by decide +kernel
 example : rewriteStructX dflt [⟨["A"], "", some "plenc:\"one\""⟩] = .err .atoi := by decide +kernel
 example : rewriteStructX dflt [⟨["A"], "", some "json:\"a\\tb\""⟩] = .unsupported := by decide +kernel
+example : rewriteStructX dflt [⟨["A"], "", some "json:\"naïve\""⟩] =
+    .ok [⟨["A"], "", some "json:\"naïve\" plenc:\"1\""⟩] := by decide +kernel
 
-/-- F1: the trailing comma of `json:"a,"` is lost -/
+/-- former F1: the old text is kept as it is, trailing comma, tab, odd spacing
+and all; only trailing spaces go -/
 example :
-    rewriteStruct dflt [⟨["A"], "", some "json:\"a,\""⟩] =
-    .ok [⟨["A"], "", some "json:\"a\" plenc:\"1\""⟩] := by decide +kernel
+    rewriteStruct dflt [⟨["A"], "", some "json:\"a,\""⟩, ⟨["B"], "", some " x:\"a\tb\"  y:\",\"  "⟩] =
+    .ok [⟨["A"], "", some "json:\"a,\" plenc:\"1\""⟩,
+         ⟨["B"], "", some " x:\"a\tb\"  y:\",\" plenc:\"2\""⟩] := by decide +kernel
 
 /-- a whole file: two struct types; one error anywhere stops everything -/
 example :
